@@ -344,6 +344,111 @@ pub fn run(out: &mut dyn Write, seed: u64, only: &str) -> std::io::Result<()> {
             }
         }
     }
+    // many workers find a match at the same instant (the first `threads` predicate evaluations meet
+    // at a rendezvous, every element matches): the first match in source order must win (C02) and
+    // the input must stop being consumed (C10); plain closures, real threads, repeated
+    if only.is_empty() || only == "C02" || only == "C10" || only == "C13" {
+        use std::sync::atomic::{AtomicBool, AtomicUsize, Ordering};
+        for (threads, shape) in [(4usize, 0usize), (8, 0), (8, 1), (6, 2), (12, 0), (3, 1)] {
+            let attempts = 30;
+            let total = 120_000u64;
+            let mut over = 0usize;
+            let mut worst = 0usize;
+            let mut wrong: Option<String> = None;
+            for _ in 0..attempts {
+                let arrived = AtomicUsize::new(0);
+                let matched = AtomicBool::new(false);
+                let after = AtomicUsize::new(0);
+                // the first `m` elements match; their evaluations meet at a rendezvous so that `m`
+                // workers report a match at the same instant while the others keep pulling
+                let m = (threads / 2).max(2) as u64;
+                let pred = |x: &u64| -> bool {
+                    if matched.load(Ordering::SeqCst) {
+                        after.fetch_add(1, Ordering::SeqCst);
+                    }
+                    if *x >= m {
+                        return false;
+                    }
+                    arrived.fetch_add(1, Ordering::SeqCst);
+                    let t0 = std::time::Instant::now();
+                    while (arrived.load(Ordering::SeqCst) as u64) < m && t0.elapsed() < std::time::Duration::from_millis(3) {
+                        std::hint::spin_loop();
+                    }
+                    matched.store(true, Ordering::SeqCst);
+                    true
+                };
+                let src = (0..total).filter(|x| *x < u64::MAX);
+                let got: Option<u64> = match shape {
+                    0 => src.par().num_threads(threads).chunk_size(1).find(pred),
+                    1 => src.par().num_threads(threads).chunk_size(1).map(|x| x + 1).filter(|x| pred(&(*x - 1))).first().map(|x| x - 1),
+                    _ => src.par().num_threads(threads).chunk_size(2).flat_map(|x| vec![x]).find(pred),
+                };
+                if got != Some(0) && wrong.is_none() {
+                    wrong = Some(format!("{:?}", got));
+                }
+                let a = after.load(Ordering::SeqCst);
+                worst = worst.max(a);
+                if a > 5000 {
+                    over += 1;
+                }
+            }
+            // the same with drop-counted values produced by the pipeline: whatever the workers do with
+            // the matches they found, every produced value is dropped exactly once (C13)
+            let mut leaked_or_double: Option<String> = None;
+            if only.is_empty() || only == "C13" {
+                static LIVE: std::sync::atomic::AtomicIsize = std::sync::atomic::AtomicIsize::new(0);
+                struct Tracked(u64);
+                impl Tracked {
+                    fn new(x: u64) -> Self {
+                        LIVE.fetch_add(1, Ordering::SeqCst);
+                        Tracked(x)
+                    }
+                }
+                impl Drop for Tracked {
+                    fn drop(&mut self) {
+                        LIVE.fetch_sub(1, Ordering::SeqCst);
+                        if self.0 == 1 {
+                            // a slow destructor on one of the matches keeps hand-over windows open
+                            std::thread::sleep(std::time::Duration::from_micros(200));
+                        }
+                    }
+                }
+                for _ in 0..attempts {
+                    LIVE.store(0, Ordering::SeqCst);
+                    let arrived = AtomicUsize::new(0);
+                    let m = (threads / 2).max(3) as u64;
+                    let pred = |t: &Tracked| -> bool {
+                        if t.0 >= m {
+                            return false;
+                        }
+                        arrived.fetch_add(1, Ordering::SeqCst);
+                        let t0 = std::time::Instant::now();
+                        while (arrived.load(Ordering::SeqCst) as u64) < m && t0.elapsed() < std::time::Duration::from_millis(3) {
+                            std::hint::spin_loop();
+                        }
+                        // the later matches report first
+                        std::thread::sleep(std::time::Duration::from_micros(150 * (m - t.0)));
+                        true
+                    };
+                    let src = (0..3000u64).filter(|x| *x < u64::MAX);
+                    let got = match shape {
+                        0 => src.par().num_threads(threads).chunk_size(1).map(Tracked::new).find(pred).map(|t| t.0),
+                        1 => src.par().num_threads(threads).chunk_size(1).filter_map(|x| Some(Tracked::new(x))).filter(pred).first().map(|t| t.0),
+                        _ => src.par().num_threads(threads).chunk_size(2).flat_map(|x| vec![Tracked::new(x)]).find(pred).map(|t| t.0),
+                    };
+                    let live = LIVE.load(Ordering::SeqCst);
+                    if (live != 0 || got != Some(0)) && leaked_or_double.is_none() {
+                        leaked_or_double = Some(format!("result {:?}, produced minus dropped = {}", got, live));
+                    }
+                }
+            }
+            let name = format!("simultaneous finders threads={} shape={} attempts={}", threads, ["find", "map.filter.first", "flat_map.find"][shape], attempts);
+            chk(out, "C13", &name, "every produced value dropped exactly once", || leaked_or_double.clone(), None)?;
+            chk(out, "C02", &name, "the first element wins", || wrong.clone(), None)?;
+            // a single slow attempt can be the OS descheduling the finder; three are not
+            chk(out, "C10", &name, "evaluations after a match stay bounded (attempts with more than 5000 of 120000)", || if over >= 3 { Some((over, worst)) } else { None }, None)?;
+        }
+    }
     // several computations at the same time on different threads, and computations started from
     // inside a closure of another one: nothing may be shared between computations
     {
@@ -394,11 +499,11 @@ pub fn run(out: &mut dyn Write, seed: u64, only: &str) -> std::io::Result<()> {
     }
     // scale: inputs and chunk sizes around the largest constant of the settings code
     // (INITIAL_CHUNK_SIZE = 2^20), plain closures (nothing is recorded)
-    {
+    if only.is_empty() || matches!(only, "C01" | "C02" | "C03" | "C04" | "C07") {
         let big = 1usize << 20;
         for &len in &[big + 1, 3 * big + 7, 6 * big + 12345] {
             let v: Vec<u64> = (0..len as u64).map(|i| i.wrapping_mul(2654435761) % 1_000_003).collect();
-            for (nt, cs) in [(2usize, ChunkSize::Exact(std::num::NonZeroUsize::new(big + 1).expect("nz"))), (3, ChunkSize::Min(std::num::NonZeroUsize::new(big + 3).expect("nz"))), (4, ChunkSize::Exact(std::num::NonZeroUsize::new(2 * big).expect("nz"))), (0, ChunkSize::Auto)] {
+            for (nt, cs) in [(2usize, ChunkSize::Exact(std::num::NonZeroUsize::new(big + 1).expect("nz"))), (3, ChunkSize::Min(std::num::NonZeroUsize::new(big + 3).expect("nz"))), (4, ChunkSize::Exact(std::num::NonZeroUsize::new(2 * big).expect("nz"))), (0, ChunkSize::Auto), (16, ChunkSize::Exact(std::num::NonZeroUsize::new(1).expect("nz"))), (8, ChunkSize::Exact(std::num::NonZeroUsize::new(64).expect("nz")))] {
                 let name = format!("scale len={} nt={} cs={:?}", len, nt, cs);
                 chk(out, "C04", &name, "count", || v.par().num_threads(nt).chunk_size(cs).count(), len)?;
                 chk(out, "C04", &name, "filter count", || v.par().num_threads(nt).chunk_size(cs).filter(|x| **x % 3 == 0).count(), v.iter().filter(|x| **x % 3 == 0).count())?;
